@@ -152,7 +152,9 @@ def footprint_models(tier):
     return [mc("Footprint", "footprint1", invariants=inv, props=("InvalidationCleans",), export=False, Defects="{}", URIs="{0}", ValsA="{0, 1}",
                ValsB="{0}", VarySets="{0, 1, 2, 3, 4}" if big else "{0, 1, 2, 4}", Export="FALSE", MaxHist="0"),
             mc("Footprint", "footprint2", invariants=inv, props=("InvalidationCleans",), export=False, Defects="{}", URIs="{0, 1}", ValsA="{0, 1}",
-               ValsB="{0}", VarySets="{0, 1, 4}" if big else "{0, 4}", Export="FALSE", MaxHist="0"),
+               ValsB="{0}", VarySets="{0, 4}", Export="FALSE", MaxHist="0")] + \
+           ([mc("Footprint", "footprint3", invariants=inv, props=("InvalidationCleans",), export=False, Defects="{}", URIs="{0, 1}", ValsA="{0, 1}",
+                ValsB="{0}", VarySets="{0, 1}", Export="FALSE", MaxHist="0")] if big else []) + [   # ({0, 1, 4}: 1.7 M states, 43 min)
             mc("Footprint", "footprint_sim", invariants=inv + ("Exported",), export=True, convert=footprint_scenarios, workers=1,
                extra=["-simulate", "num=%d" % runs, "-depth", str(depth + 1), "-seed", "{seed}"],
                Defects="{}", URIs="{0, 1}", ValsA="{0, 1}", ValsB="{0, 1}", VarySets="{0, 1, 2, 3, 4}", Export="TRUE", MaxHist=str(depth))]
@@ -768,7 +770,8 @@ def run_property(prop, tier, seed):
         byid = {s["id"]: s for s in scenarios}
         # 2. replay into the real code, 3. validate what the code did
         traces, infos = vlib.run_harness(binary, scenarios, work, seed, test=plan.test)
-        viol, nt, events = vlib.validate_traces(work, traces, module=plan.trace_module)
+        # (16 acceptors of a couple of GB each next to a large Python heap: half of them at a time for very large runs)
+        viol, nt, events = vlib.validate_traces(work, traces, module=plan.trace_module, nproc=8 if len(scenarios) > 200000 else None)
         mine = [v for v in viol if prop in v["props"]]
         others = sorted({p for v in viol for p in v["props"] if p != prop})
         # drift accounting on a sample of traces (model prediction vs code)
